@@ -7,6 +7,9 @@ import Driver.OpsC03
 import Driver.OpsSym
 import Driver.OpsBot
 import Driver.OpsText
+import Driver.OpsTEI
+import Driver.OpsFPA
+import Driver.OpsMCTS
 namespace Driver
 
 def handlers : List Handler := [
@@ -19,6 +22,9 @@ def handlers : List Handler := [
   handleEval,
   handleBot,
   handleText,
+  handleTEI,
+  handleFPA,
+  handleMCTS,
 ]
 
 def step (st : St) (line : String) : St × String :=
